@@ -30,6 +30,33 @@ func extractUpload(f *Facts) {
 			f.ok(id)
 		}
 	}
+	// internal.Copy: the calls in source order (os / io calls and method calls on the two files),
+	// with the flag expression of an os.OpenFile spelled out
+	fd := f.funcDecl("internal", "Copy")
+	if fd == nil || fd.Body == nil {
+		fmt.Fprintf(b, "def internalCopy : Option (List String) := none\n\n")
+		f.fail("upload.internal.Copy:calls", "function not found")
+		return
+	}
+	var calls []string
+	ast.Inspect(fd.Body, func(n ast.Node) bool {
+		ce, ok := n.(*ast.CallExpr)
+		if !ok {
+			return true
+		}
+		name := f.src(ce.Fun)
+		switch {
+		case name == "os.OpenFile" && len(ce.Args) >= 2:
+			calls = append(calls, "os.OpenFile:"+strings.ReplaceAll(f.src(ce.Args[1]), " ", ""))
+		case strings.HasPrefix(name, "os.") || strings.HasPrefix(name, "io."):
+			calls = append(calls, name)
+		case strings.HasSuffix(name, ".Close"):
+			calls = append(calls, "Close")
+		}
+		return true
+	})
+	fmt.Fprintf(b, "def internalCopy : Option (List String) := some %s\n\n", leanStrList(calls))
+	f.ok("upload.internal.Copy:calls")
 }
 
 func uploadEvents(f *Facts, fd *ast.FuncDecl) ([]string, bool) {
